@@ -564,6 +564,8 @@ VALUE_OPTIONS = [
     ('-D',          [], ['-DVERIF_SYM=4242'], r'#define\s+VERIF_SYM\s+4242\b', 'a preprocessor definition requested on the command line'),
     ('-D-plain',    [], ['-DVERIF_FLAG'], r'#define\s+VERIF_FLAG\b', 'a preprocessor definition without a value'),
     ('yyclass',     ['c++', 'yyclass="VerifLexer"'], [], r'\bVerifLexer::yylex\b', 'the class whose yylex is generated'),
+    ('emit-r',      ['emit="r"'], [], r'\bint\s+yylex_init\s*\(', 'the reentrant API (backend_by_name: "r" selects the default back end, reentrant)'),
+    ('-e-r',        [], ['-e', 'r'], r'\bint\s+yylex_init\s*\(', 'the reentrant API, selected on the command line'),
 ]
 
 def strip_comments(t):
